@@ -269,6 +269,50 @@ def flagsGo : List (List Char) → Nat → Option Nat
 def categoryFromStr (s : List Char) : Option Nat :=
   if (trim s).isEmpty then some 0 else flagsGo (Wire.splitOn '|' s) 0
 
+def u32hex? (s : List Char) : Option Nat :=
+  match Wire.hex? (stripAll0x s) with
+  | some n => if n < 4294967296 then some n else none
+  | none => none
+
+/-- `u32::from_str_radix(s, 16)` as used by `bitflags::parser::ParseHex for u32` (optional `+`) -/
+def hexU32? (s : List Char) : Option Nat :=
+  let d := match s with
+    | '+' :: r => r
+    | _ => s
+  match Wire.hex? d with
+  | some n => if n < 4294967296 then some n else none
+  | none => none
+
+/-- `str::trim` for a given white-space predicate -/
+def trimW (ws : Char → Bool) (s : List Char) : List Char :=
+  ((s.dropWhile ws).reverse.dropWhile ws).reverse
+
+/-- `str::trim` on ASCII white space -/
+def trimWs (s : List Char) : List Char := trimW Wire.isWs s
+
+/-- one `|`-separated piece of `bitflags::parser::from_str`: a hex literal `0x…` (`from_bits_retain`) or a flag name -/
+def flagOfPiece? (f : List Char) : Option Nat :=
+  match f with
+  | '0' :: 'x' :: h => hexU32? h
+  | _ => catOfName? f
+
+/-- `bitflags::parser::from_str::<CategoryType>` (= `CategoryType::from_str`, `str::parse`): empty input is the empty
+set, otherwise every `|`-separated piece, trimmed, must be a non-empty hex literal or flag name; the pieces are united.
+`ws` = what `str::trim` removes (Unicode `White_Space` when the text is decoded, ASCII white space on byte strings). -/
+def catOfStrW? (ws : Char → Bool) (s : List Char) : Option Nat :=
+  if (trimW ws s).isEmpty then some 0 else
+  (Wire.splitOn '|' s).foldl (fun acc f =>
+    match acc with
+    | none => none
+    | some a =>
+      let f := trimW ws f
+      if f.isEmpty then none else
+      match flagOfPiece? f with
+      | some c => some (a ||| c)
+      | none => none) (some 0)
+
+def catOfStr? (s : List Char) : Option Nat := catOfStrW? Wire.isWs s
+
 /-- `cols[1..].iter().take_while(|e| e.chars().next().unwrap() != '#')` + `insert(elem.parse()?)` -/
 def parseCats : List (List Char) → Nat → Except LoadErr Nat
   | [], acc => .ok acc
